@@ -101,6 +101,16 @@ func (e *Engine) funcsForProperty(prop string) []*ssa.Function {
 					match = true
 				}
 			}
+			for _, cl := range ct.AtReturn {
+				if hasProp(cl.Tags, prop) {
+					match = true
+				}
+			}
+			for _, cl := range ct.Rejects {
+				if hasProp(cl.Tags, prop) {
+					match = true
+				}
+			}
 			for _, cl := range ct.LoopInvs {
 				if hasProp(cl.Tags, prop) {
 					match = true
@@ -108,6 +118,11 @@ func (e *Engine) funcsForProperty(prop string) []*ssa.Function {
 			}
 			for _, l := range ct.Loops {
 				for _, cl := range l.Invariants {
+					if hasProp(cl.Tags, prop) {
+						match = true
+					}
+				}
+				for _, cl := range l.Exits {
 					if hasProp(cl.Tags, prop) {
 						match = true
 					}
@@ -179,6 +194,11 @@ func runCheck(e *Engine, args []string, tier string, timeout int, verif string) 
 	var drift []string
 	trusted := map[string]bool{}
 	kindCount := map[string]int{}
+	type slowOb struct {
+		name, solver string
+		secs         float64
+	}
+	var slow []slowOb
 	for _, fr := range rr.Funcs {
 		if fr.Err != "" {
 			drift = append(drift, fr.Key+": "+fr.Err)
@@ -199,6 +219,7 @@ func runCheck(e *Engine, args []string, tier string, timeout int, verif string) 
 			if ob.Status == "unsat" {
 				nOK++
 				perSolver[ob.Solver]++
+				slow = append(slow, slowOb{ob.Name, ob.Solver, ob.Secs})
 				if len(samples) < 6 && (ob.Kind == "post" || ob.Kind == "pre" || ob.Kind == "modifies" || ob.Kind == "inv-pres") {
 					samples = append(samples, map[string]any{"obligation": ob.Name, "kind": ob.Kind, "at": ob.Pos, "clause": ob.Detail, "goal": trunc(ob.Query, 400), "solver": ob.Solver})
 				}
@@ -324,6 +345,17 @@ func runCheck(e *Engine, args []string, tier string, timeout int, verif string) 
 		"by_backend":         perSolver,
 		"solver_seconds":     round2(solverSecs),
 		"samples":            samples,
+		"slowest_obligations": func() []string {
+			sort.Slice(slow, func(i, j int) bool { return slow[i].secs > slow[j].secs })
+			var out []string
+			for i, x := range slow {
+				if i >= 5 {
+					break
+				}
+				out = append(out, fmt.Sprintf("%s %.2fs %s", x.name, x.secs, x.solver))
+			}
+			return out
+		}(),
 		"known_findings":     len(printedKnown),
 		"known_finding_obligations": knownObs,
 		"undischarged":       obNames(failed),
